@@ -735,10 +735,11 @@ fn process_fn_body(
         sig.generics.params.push(p);
     }
     let r7 = rw.fired.clone();
+    // the signature is rewritten first and kept even if the body has to be given up (R3: `Self::Item`)
+    rw.visit_signature_mut(sig);
     let (sig0, block0) = (sig.clone(), block.clone());
     IN_FN_BODY.with(|c| c.set(true));
     let res = std::panic::catch_unwind(std::panic::AssertUnwindSafe(|| {
-        rw.visit_signature_mut(sig);
         rw.visit_block_mut(block);
         let mut cf = ClosureFinder { found: false };
         syn::visit::Visit::visit_block(&mut cf, block);
